@@ -34,6 +34,8 @@ class Contract:
         self.bound_note = holder.__dict__.get("bound_note", "")
         self.mode = holder.__dict__.get("mode", "R")
         self.extent_cap = holder.__dict__.get("extent_cap", 4 if self.bounded else None)
+        # standin: the function is known to be outside the interpreter's subset; the cross-check on the real code decides it
+        self.standin = bool(holder.__dict__.get("standin", False))
         self.max_paths = holder.__dict__.get("max_paths", 400)
         self.ensures = []      # (name, f(a, old, result))
         self.raises = []       # (exc type, name, when(a_old), state clause f(a, old) or None)
